@@ -84,6 +84,14 @@ class RGen:
             nodes.append(oh.make_node("Div", [a, z2], [o2], name=self.nname("Div")))
             self.features.add("constants_differing_in_the_sign_of_zero")
             return [(out, "F23"), (o2, "F23")]
+        if self.gen >= 5 and t.pick(14) == 0:
+            # version 5: a value that is not a tensor (a sequence built and indexed on the spot; its type is declared nowhere)
+            ci, sq = self.fresh("ci"), self.fresh("sq")
+            nodes.append(oh.make_node("Constant", [], [ci], value_int=t.pick(2), name=self.nname("Constant")))
+            nodes.append(oh.make_node("SequenceConstruct", [a, F23()], [sq], name=self.nname("SequenceConstruct")))
+            nodes.append(oh.make_node("SequenceAt", [sq, ci], [out], name=self.nname("SequenceAt")))
+            self.features.add("sequence_typed_value")
+            return [(out, "F23")]
         if k == 0 or k == 1:
             b = [F23(), self.pick_kind(pool, "F3"), self.pick_kind(pool, "F")][t.pick(3)] or F23()
             # version 5: division too (by the scalar constants 0.0 / -0.0 among others: the sign of a zero decides the result)
